@@ -69,24 +69,28 @@ KF3(e, subj) ==
        \/ e.op = "sort_big" /\ e.len_out = e.len_in
 
 (* ---------------------------------------------------------------------------------------- *)
-(* C11-KF4  AdvancedRadixSort<RadixString> (AdvancedStringRadixSort): insertion sort, the      *)
-(* "tim" sort and the small-bucket fall-back of the MSD sort compare extract_key() = the first  *)
-(* 8 bytes, zero padded; strings that agree there (a common 8-byte prefix, or differing only    *)
-(* in trailing zero bytes) are left in arbitrary relative order.                                *)
+(* C11-KF4  AdvancedRadixSort<RadixString> (AdvancedStringRadixSort), LSD strategy (forced, or  *)
+(* chosen by the adaptive selection for more than insertion_sort_threshold elements): the LSD    *)
+(* passes sort by extract_key() = the first 8 bytes, zero padded; strings that agree there (a    *)
+(* common 8-byte prefix, or differing only in trailing zero bytes) keep their input order (the   *)
+(* passes are stable).  The comparison sorts and the MSD strategy were repaired (C11-4).         *)
 K8(s) == [ i \in 1..8 |-> IF i <= Len(s) THEN s[i] ELSE 0 ]
 Key8Leq(a, b) == K8(a) = K8(b) \/ BLess(K8(a), K8(b))
 Key8Collision(in) == \E i, j \in 1..Len(in) : in[i] # in[j] /\ K8(in[i]) = K8(in[j])
+LsdReached(subj, n) == subj.strategy = "lsd" \/ (subj.strategy = "auto" /\ n > subj.ithr)
+SameK8(s, k) == SelectSeq(s, LAMBDA x : K8(x) = k)
 G4(e, subj) ==
     /\ subj.fam = "adv" /\ subj.elem = "bytes"
-    /\ \/ /\ e.op = "sort" /\ e.ok /\ e.kt = "bytes" /\ Key8Collision(e.in)
+    /\ \/ /\ e.op = "sort" /\ e.ok /\ e.kt = "bytes" /\ LsdReached(subj, Len(e.in)) /\ Key8Collision(e.in)
           /\ ~ SortOK(e.kt, e.ord, e.ok, e.in, e.out)
-       \/ /\ e.op = "sort_big" /\ e.ok /\ e.embdup
+       \/ /\ e.op = "sort_big" /\ e.ok /\ LsdReached(subj, e.len_in) /\ e.embdup
           /\ ~ BigOK(e.ok, e.len_in, e.len_out, e.bag_in, e.bag_out, e.inv)
 KF4(e, subj) ==
     /\ G4(e, subj)
     /\ \/ /\ e.op = "sort"
           /\ IsPermutation(e.in, e.out)
           /\ \A i \in 1..(Len(e.out) - 1) : Key8Leq(e.out[i], e.out[i + 1])
+          /\ \A k \in { K8(x) : x \in Elems(e.in) } : SameK8(e.in, k) = SameK8(e.out, k)
        \/ /\ e.op = "sort_big"
           /\ e.len_out = e.len_in /\ e.bag_out = e.bag_in
 
